@@ -682,7 +682,7 @@ fn cmd_capconfig(args: &[String]) -> i32 {
             // an actor spawned with the built-in default before the application configures its own: the
             // configuration call is still the first one and must succeed; later spawns use the new value
             let pre = Scenario { actors: vec![ActorSpec { cap: None, ..Default::default() }], clients: vec![vec![Op::Tell { h: 0, m: Msg::work(9001) }, Op::Stop { h: 0 }]], ..Default::default() };
-            let cfg0 = SchedCfg { seed: 3, strategy: exec::StrategyCfg::Fifo, spurious_permille: 0, max_steps: 20_000, replay: None };
+            let cfg0 = SchedCfg { seed: 3, strategy: exec::StrategyCfg::Fifo, spurious_permille: 0, max_steps: 20_000, replay: None, split_permille: 0 };
             let _ = exec::execute(&pre, &cfg0);
             let r = rsactor::set_default_mailbox_capacity(num(1));
             if r.is_err() {
@@ -702,7 +702,7 @@ fn cmd_capconfig(args: &[String]) -> i32 {
         ops.push(Op::Tell { h: 0, m: Msg::work(i as u64 + 1) });
     }
     let sc = Scenario { actors: vec![ActorSpec { cap: None, on_start: vec![Op::Wait(1)], ..Default::default() }], clients: vec![ops], ..Default::default() };
-    let cfg = SchedCfg { seed: 7, strategy: exec::StrategyCfg::Fifo, spurious_permille: 0, max_steps: 20_000, replay: None };
+    let cfg = SchedCfg { seed: 7, strategy: exec::StrategyCfg::Fifo, spurious_permille: 0, max_steps: 20_000, replay: None, split_permille: 0 };
     let r = exec::execute(&sc, &cfg);
     let accepted = r.log.iter().filter(|e| matches!(&e.k, world::EvKind::Ret { res: world::Res::Ok, .. })).count();
     if accepted != expected {
